@@ -228,13 +228,14 @@ class Judge:
     def bump(self, d, k):
         d[k] = d.get(k, 0) + 1
 
-    def shrink(self, text, oracle, want_rc=0):
+    def shrink(self, text, oracle, want_rc=0, fragment=""):
         """smaller program that cproc-qbe still accepts (ends with status want_rc) and (oracle) gcc and clang
         still reject"""
         if isinstance(text, bytes):
             return text.decode("latin-1")
         lines = text.split("\n")
-        keep = {i for i, ln in enumerate(lines) if "c10_" in ln or "C10_" in ln}
+        frag = [x.strip() for x in fragment.split("\n") if x.strip()]
+        keep = {i for i, ln in enumerate(lines) if "c10_" in ln or "C10_" in ln or any(x in ln for x in frag)}
 
         def test(ls):
             t = "\n".join(ls) + "\n"
@@ -250,7 +251,8 @@ class Judge:
         except Exception:
             return text
 
-    def result(self, stream, sitekey, label, pos, text, res, oracle=True, fid=None, standalone=None, extra=None):
+    def result(self, stream, sitekey, label, pos, text, res, oracle=True, fid=None, standalone=None, extra=None,
+               fragment=""):
         """judge one compilation of a unit that must be rejected; returns True when it was"""
         rc, err = res
         self.bump(self.by_pos, "%s/%s" % (stream, pos))
@@ -264,7 +266,8 @@ class Judge:
             if standalone is not None and one(self.cc, standalone, self.tmp)[0] == 0:
                 prog = standalone if isinstance(standalone, str) else standalone.decode("latin-1")
             if prog is None:
-                prog = self.shrink(text, oracle) if stream in ("catalogue", "unsupported", "mutation") else \
+                prog = self.shrink(text, oracle, 0, fragment) \
+                    if stream in ("catalogue", "unsupported", "mutation") and pos != "standalone" else \
                     (text if isinstance(text, str) else text.decode("latin-1"))
             rep = {"kind": "accepted-violation", "stream": stream, "site": sitekey, "template": label,
                    "position": pos, "program": prog, "exit_status": 0,
@@ -356,7 +359,7 @@ def run_catalogue(ck, bt, cc, cat, hosts, judge, reps):
         ks = c10cat.key_str(e["site"])
         oracle = t.get("oracle", "gcc") == "gcc" and not t.get("raw")
         ok = judge.result("catalogue", ks, "#%d %s" % (n, t["code"][:60]), pos,
-                          text if t.get("raw") else text.decode("utf-8"), r, oracle=oracle,
+                          text if t.get("raw") else text.decode("utf-8"), r, oracle=oracle, fragment=t["code"],
                           standalone=None if pos == "standalone" else (alone if t.get("raw") else alone.decode("utf-8")))
         st = per_site.setdefault(ks, [0, 0])
         st[0] += 1
@@ -511,6 +514,7 @@ def run_unsupported(ck, bt, cc, hosts, judge, sitekeys, n):
         st["units"] += 1
         # a unit of a recorded class is judged per class (fid), everything else per feature
         ok = judge.result("unsupported", feat + ("/" + fid if fid else ""), code[:70], pos, text, r, oracle=False, fid=fid,
+                          fragment=code,
                           standalone=None if pos == "standalone" else alone)
         st["rejected"] += ok
     ck.cov["unsupported_features"] = stats
